@@ -72,11 +72,16 @@ structure Quirks where
 deriving Repr, DecidableEq
 
 def Quirks.spec : Quirks := {}
+/-- the code at the snapshot the properties were written against (before any `fix:` commit) -/
 def Quirks.asis : Quirks :=
   { closeSwallows := true, mediaInMediaNested := true, atRuleHoists := true,
     atRootKeepsRule := true, compressedDropsBang := true, commentInterpExpandedOnly := true,
     hashCommentDropped := true, vendorKeyframesPrefixed := true,
     compressedMultilineGarbled := true }
+/-- the code after the repairs dcd9ee6, b20c1a1, 206f6e3, 01d06ad, 242f60b: the three open
+findings remain -/
+def Quirks.now : Quirks :=
+  { closeSwallows := true, mediaInMediaNested := true, atRootKeepsRule := true }
 
 /-- `css::BodyItem` (what may sit inside a `css::Rule`). -/
 inductive BodyItem (σ : Type) where
